@@ -9,6 +9,7 @@ import (
 	"fmt"
 	"os"
 	"strings"
+	"sync/atomic"
 	"time"
 
 	pb "github.com/AliceO2Group/Control/core/protos"
@@ -39,7 +40,7 @@ var c02Modes = []string{"direct", "basic", "fairmq"}
 
 func (sc c02Scenario) expectSuccess() bool {
 	for _, t := range sc.Tasks {
-		if t.Critical && t.Outcome != "ok" {
+		if t.Critical && t.Outcome != "ok" && t.Outcome != "offer-late" {
 			return false
 		}
 	}
@@ -124,6 +125,12 @@ func c02Scenarios(c *vlib.Ctx) []c02Scenario {
 			}
 		}
 	}
+	// the first offers round cannot place a critical task (its agent is not offered yet), the round of the
+	// next deployment attempt can: the task becomes active well in time, the creation must succeed
+	out = append(out,
+		c02Scenario{Transition: "DEPLOY", Hosts: 2, Tasks: []c02Task{{Name: "victim", Critical: true, Mode: "direct", Host: 1, Outcome: "offer-late"}}},
+		c02Scenario{Transition: "DEPLOY", Hosts: 2, Tasks: []c02Task{{Name: "victim", Critical: true, Mode: "fairmq", Host: 1, Outcome: "offer-late"}, {Name: "bc", Critical: true, Mode: "direct", Host: 2, Outcome: "ok"}, {Name: "bn", Critical: false, Mode: "basic", Host: 2, Outcome: "ok"}}},
+	)
 	// long scenarios that are part of every tier (the code's own 90/120 s command timeouts expire; they
 	// run side by side): a silent target, and a target whose executor is lost just before the request
 	// (the task has lost its executor id, the environment has not noticed yet)
@@ -358,6 +365,28 @@ func c02Run(c *vlib.Ctx, idx int, sc c02Scenario) {
 		return tt, ok
 	}
 	var armed bool // faults on commands only once the source state is reached
+	for _, t := range sc.Tasks {
+		if sc.Transition == "DEPLOY" && t.Outcome == "offer-late" {
+			// the victim's agent is in no offer until the first offers round has gone out
+			var shown atomic.Bool
+			late := fmt.Sprintf("host%d", t.Host)
+			s.Master.OfferFilter = func(a *simmesos.Agent) bool { return a.Hostname != late || shown.Load() }
+			go func() {
+				for s.CoreAlive() && !shown.Load() {
+					for _, rec := range s.Master.Log() {
+						if rec.Kind == "event" && rec.Type == "OFFER" {
+							shown.Store(true)
+							s.Master.Note("AGENT-NOW-OFFERED", map[string]interface{}{"host": late})
+							c.Count("deployments_placed_on_a_later_offers_round", 1)
+							break
+						}
+					}
+					time.Sleep(5 * time.Millisecond)
+				}
+			}()
+			break
+		}
+	}
 	s.Master.OnLaunch = func(t *simmesos.LaunchedTask) simmesos.LaunchPlan {
 		tt, ok := roleOf(t)
 		plan := simmesos.LaunchPlan{Kind: "running", Delay: 30 * time.Millisecond}
@@ -440,7 +469,13 @@ func c02Run(c *vlib.Ctx, idx int, sc c02Scenario) {
 			k = "scheduler-client-stuck-already-subscribed"
 			what += "; the core's log shows the reason: " + stuckClientExplanation
 		}
-		if rule == "SUCCESS-EXPECTED" && sc.Transition == "DEPLOY" {
+		lateOffer := false
+		for _, t := range sc.Tasks {
+			lateOffer = lateOffer || t.Outcome == "offer-late"
+		}
+		if rule == "SUCCESS-EXPECTED" && sc.Transition == "DEPLOY" && lateOffer {
+			k = "DEPLOY/critical-task-placed-on-a-later-offers-round"
+		} else if rule == "SUCCESS-EXPECTED" && sc.Transition == "DEPLOY" {
 			// canonical family: creation fails although only non-critical tasks did not become active
 			set := map[string]bool{}
 			for _, t := range sc.Tasks {
@@ -603,9 +638,16 @@ func c02Run(c *vlib.Ctx, idx int, sc c02Scenario) {
 				c.Count("tasks_reported_unreachable_before_request", 1)
 			}
 			if tt, ok := roleOf(&lt); ok && tt.Outcome == "task-failed-before" {
-				s.Master.Note("TASK-FAILED", map[string]interface{}{"task": lt.RolePath})
-				s.Master.TaskStatus(lt.ID, "TASK_FAILED", "process died (scripted)")
+				// the terminal state reported varies with the transition: failed, killed (by an operator, by
+				// the agent) or lost - a dead task whatever it is called
+				dead := map[string]string{"START_ACTIVITY": "TASK_FAILED", "STOP_ACTIVITY": "TASK_KILLED", "RESET": "TASK_LOST"}[sc.Transition]
+				if dead == "" {
+					dead = "TASK_FAILED"
+				}
+				s.Master.Note("TASK-FAILED", map[string]interface{}{"task": lt.RolePath, "reported_as": dead})
+				s.Master.TaskStatus(lt.ID, dead, "process died (scripted)")
 				c.Count("tasks_failed_before_request", 1)
+				c.Count("tasks_failed_before_request_as_"+dead, 1)
 			}
 		}
 		for _, t := range sc.Tasks {
